@@ -273,7 +273,7 @@ def classify_crash(stderr_tail, rc):
     return 'FAULT Crash(rc=%s)' % rc
 
 
-def run_harness(exe, casefile, ids, per_case_timeout=5, env_extra=None, total_timeout=3000):
+def run_harness(exe, casefile, ids, per_case_timeout=5, env_extra=None, total_timeout=3000, max_crashes=400):
     """run the harness over the whole file in a child; on death, classify, record, restart
     after the failing case.  ids = list of case ids in file order (one per line)."""
     env = dict(os.environ)
@@ -316,6 +316,10 @@ def run_harness(exe, casefile, ids, per_case_timeout=5, env_extra=None, total_ti
             # the harness reported a per-case timeout itself and exited: continue after it
             crashes += 1
             start = nxt
+            if crashes >= max_crashes:
+                for j in range(start, len(ids)):
+                    results.setdefault(ids[j], 'NOTRUN')
+                break
             continue
         # case ids[nxt] did not produce a result: it crashed
         err = open(errpath, errors='replace').read()
@@ -327,7 +331,11 @@ def run_harness(exe, casefile, ids, per_case_timeout=5, env_extra=None, total_ti
             results[ids[nxt]] = classify_crash(tail[:20000], rc)
         crashes += 1
         start = nxt + 1
-        if time.time() > t_end:
+        if time.time() > t_end or crashes >= max_crashes:
+            # enough evidence: the remaining cases are not run (a mutation that breaks everything would
+            # otherwise cost one process restart per case)
+            for j in range(start, len(ids)):
+                results.setdefault(ids[j], 'NOTRUN')
             break
     return results, crashes
 
@@ -548,7 +556,11 @@ def run_check(chk, tier, seed, replay=None):
     known_list = [k for k in load_known().get('known', []) if k.get('property') == pid]
     known_ids = {k['id'] for k in known_list}
     viol, corr, known_hits = [], [], {}
+    notrun = 0
     for i, c in enumerate(cases):
+        if impl[i] == 'NOTRUN':
+            notrun += 1
+            continue
         a_ok = chk.allowed(c, impl[i], spec[i])
         s_ok = chk.same(c, impl[i], model[i])
         if not a_ok:
@@ -644,7 +656,7 @@ def run_check(chk, tier, seed, replay=None):
             'rule': getattr(chk, 'rule', chk.__doc__ or ''),
             'samples': samples,
             'distribution': dict(chk.summarize(cases, impl), outcomes=outcome_hist),
-            'impl_crashes_observed': crashes,
+            'impl_crashes_observed': crashes, 'cases_not_run_after_crash_cap': notrun,
             'correspondence_disagreements': len(corr), 'spec_violations': len(viol),
             'known_findings_hit': {k: len(v) for k, v in known_hits.items()},
             'exhaustive': False,
@@ -676,7 +688,7 @@ def shrink(chk, case, rundir, exes, drv, rounds=40):
         impl, model, spec, _, _ = execute(chk, cands, rundir, exes, drv)
         nxt = None
         for i, c in enumerate(cands):
-            if not chk.allowed(c, impl[i], spec[i]) and chk.known(c, impl[i], spec[i]) is None:
+            if impl[i] != 'NOTRUN' and not chk.allowed(c, impl[i], spec[i]) and chk.known(c, impl[i], spec[i]) is None:
                 nxt = c
                 break
         if nxt is None:
@@ -692,7 +704,7 @@ def search_violation(chk, rundir, exes, drv, seed, known_ids, rounds=3):
         cases = list(dict.fromkeys(chk.gen(rng, 'thorough')))
         impl, model, spec, _, _ = execute(chk, cases, rundir, exes, drv)
         for i, c in enumerate(cases):
-            if not chk.allowed(c, impl[i], spec[i]):
+            if impl[i] != 'NOTRUN' and not chk.allowed(c, impl[i], spec[i]):
                 kid = chk.known(c, impl[i], spec[i])
                 if kid is None or kid not in known_ids:
                     return c, impl[i], spec[i], model[i]
